@@ -43,7 +43,7 @@ def _has_kind(t, kinds):
 
 # ----------------------------------------------------------------------------- worker side
 
-def _run_modes(op, x, can_run: dict) -> dict:
+def _run_modes(op, x, can_run: dict, fresh=None) -> dict:
     import equinox
     import jax
     import numpy as np
@@ -66,6 +66,16 @@ def _run_modes(op, x, can_run: dict) -> dict:
                 return 'values'
         return None
 
+    # a fresh instance on which the jitted application comes FIRST and the eager one after it (state cached on the
+    # instance during tracing must not leak into later uses)
+    if fresh is not None:
+        try:
+            op2 = fresh()
+            yj = jax.jit(lambda v: op2.mv(v))(x)
+            ye = op2.mv(x)
+            res['jit_then_eager'] = cmp(yj) or cmp(ye)
+        except Exception as exc:
+            res['jit_then_eager'] = f'raised:{type(exc).__name__}'
     for mode in MODES[1:]:
         try:
             if mode == 'jit_closure':
@@ -93,6 +103,7 @@ def execute(case: dict) -> dict:
 
     o = {'id': case['id'], 'x64': bool(jax.config.jax_enable_x64)}
     kind = case.get('special')
+    fresh = None
     try:
         if kind == 'index_mask':
             from furax._base.indices import IndexOperator
@@ -114,6 +125,7 @@ def execute(case: dict) -> dict:
             term = termcheck._retype(case['term'], dt) if dt != 'f32' else case['term']
             # Toeplitz operators with the default method and FFT size (the integer fft_size is a pytree leaf)
             op = terms.Builder(toeplitz_method='overlap_save').build(term)
+            fresh = lambda: terms.Builder(toeplitz_method='overlap_save').build(term)    # noqa: E731
             want = terms.mat_to_float(case['den'])
     except Exception as exc:
         o['build_exc'] = f'{type(exc).__name__}: {str(exc)[:200]}'
@@ -121,7 +133,7 @@ def execute(case: dict) -> dict:
     rng = np.random.default_rng(int(case['id'], 16) % (2 ** 32))
     x = termcheck._rand_int_tree(op.in_structure(), rng)
     try:
-        res, y0 = _run_modes(op, x, case.get('can_run', {}))
+        res, y0 = _run_modes(op, x, case.get('can_run', {}), fresh)
         o['modes'] = res
         ok, err = termcheck._close(terms.flatten_value(y0), want @ terms.flatten_value(x), 2e-4)
         o['eager_ok'] = ok
